@@ -42,7 +42,10 @@ def p_c11(facts, rep, tier):
         "LiveOverlay::new, evaluated over the three-value status domain (the MIR of the predicate, its closure and helpers is interpreted for "
         "LIVE, DROPPED and COMMITTED), refuses exactly the non-COMMITTED parents; P2: the status word is written only by commit (COMMITTED) and "
         "drop (compare_exchange LIVE -> DROPPED). S1: where LiveOverlay::value is consulted, the store is read only on the None edge of a branch "
-        "taken directly on the lookup's result (an overlay delete is final). Behavioural equivalence of overlays with commits is not decided."
+        "taken directly on the lookup's result (an overlay delete is final). S2: in SeekRequest::continue_leaves_fetch (reconstruction of an elided "
+        "subtree under an overlay chain) every stored leaf is copied into the merged result or superseded by an overlay entry - a forward dataflow "
+        "tracks the frontier of handled leaves through the slice copies and cursor steps and requires it to be END on every path to reconstruct_pages. "
+        "Behavioural equivalence of overlays with commits is not decided."
     )
     n_fn, n_eff, n_guard = guardfx.run(facts, rep, "C11")
     rep.floor("C11 guardfx functions", n_fn, 2)
@@ -57,6 +60,9 @@ def p_c11(facts, rep, tier):
 
     nu, ns = shadow.run(facts, rep)
     rep.floor("S1 functions consulting LiveOverlay::value with a store fall-back", nu, 2)
+    import mergefront
+
+    mergefront.run(facts, rep)
     rep.assume("path feasibility is ignored", "effect table as in rules/guardfx.py")
     rep.trust("rustc MIR (nightly, mir-opt-level=0)", "rules/guardfx.py tables")
 
@@ -188,12 +194,16 @@ def p_c19(facts, rep, tier):
         "U2 freed pages reach the free list of their own file: SyncFinisher::finish is given the freed_pages of the stage that allocated from the same "
         "Store::start_sync call, hands them to FreeList::commit, which hands them to push_and_encode; each stage collects the replaced (`deleted`) pages and the "
         "tracker's extra_freed. U3 SyncAllocator::allocate takes a page from the bump only behind a comparison of the allocation index with the clean free "
-        "list's length. The page arithmetic (every page below the frontier in use or free, frontier not growing over fill/empty cycles, the count being right) is not decided."
+        "list's length. U4 overflow pages of replaced values are released: in LeafUpdater::keep_up_to every path from the lookup of the changed key to the return "
+        "examines the `found` flag, with it the replaced cell's overflow flag, and with that invokes the deleted-overflow callback; LeafUpdater::ingest passes the "
+        "callback on; the leaf stage's callback stores the cell in LeafWorkerOutput.overflow_deleted, which is drained into overflow::delete with the stage's "
+        "freed_pages. The page arithmetic (every page below the frontier in use or free, frontier not growing over fill/empty cycles, the count being right) is not decided."
     )
-    n1, n2, n3 = reclaim.run(facts, rep)
+    n1, n2, n3, n4 = reclaim.run(facts, rep)
     rep.floor("U1 occupancy obligations", n1, 8)
     rep.floor("U2 freed-page flow obligations", n2, 8)
     rep.floor("U3 obligations", n3, 2)
+    rep.floor("U4 overflow-release obligations", n4, 8)
     rep.assume("path feasibility is ignored", "MetaMap::set_full / set_tombstone / full_count do what their names say (bitbox/meta_map.rs is not analysed beyond its call sites)")
     rep.trust("rustc MIR (nightly, mir-opt-level=0)", "rules/reclaim.py anchors")
 
